@@ -58,6 +58,25 @@ structure Cand where
   len : Nat
 deriving DecidableEq, Repr
 
+/-- an unconfirmed match of a piece of a CHAINED string (scan.c `_yr_scan_verify_chained_string_match`); the chain logic
+    compares `off` (offset INSIDE the block) only, the list order / duplicate test uses `base + off` -/
+structure UMatch where
+  base : Nat
+  off : Nat
+  len : Nat
+  clen : Nat       -- chain_length
+deriving DecidableEq, Repr
+
+/-- a string that is a piece of a chain: `prev` = `chained_to` (none for the head), gap to the previous piece, tail flag -/
+structure ChainInfo where
+  prev : Option Nat
+  gapMin : Nat
+  gapMax : Nat
+  isTail : Bool
+deriving DecidableEq, Repr
+
+abbrev UTable := List (Nat × List UMatch)
+
 inductive CbRet | cont | abort | error
 deriving DecidableEq, Repr
 
@@ -118,6 +137,8 @@ structure Params where
   ep : Bool → Nat → Nat → Nat → Option Nat -- process-memory flag, data, size, base: yr_get_entry_point_offset(data, size),
                                            -- with the flag yr_get_entry_point_address(data, size, base)
   singleMatch : Nat → Bool                 -- STRING_FLAGS_SINGLE_MATCH (only used as `$a`): fast mode keeps one match
+  chain : Nat → Option ChainInfo           -- pieces of chained strings (hex / regexp split at [-] or a jump >= 200)
+  pruneSlack : Nat                         -- YR_RE_SCAN_LIMIT + YR_MAX_ATOM_LENGTH
   scanErr : Nat → Option Nat               -- by data key: verification in this block fails with that error code
   cond : Nat → View → Prog
   modParse : Bool → Nat → Option (Block → Bool)   -- by process-memory flag and module; none: load does not touch the blocks
@@ -137,7 +158,7 @@ structure Core where
   entryPoint : Option Nat
   notebook : Bool                    -- matches_notebook != NULL
   found : MatchTable
-  unconfirmed : MatchTable           -- only written for chained strings (not produced by `cands`)
+  unconfirmed : UTable               -- unconfirmed_matches: pending pieces of chained strings
   ruleFlags : List Nat               -- rule_matches_flags
   reqEval : List Nat                 -- required_eval
   nsUnsat : List Nat                 -- ns_unsatisfied_flags
@@ -243,6 +264,88 @@ def It.next (it : It) (w : World) : Option Block × It × World :=
 /-- `iterator->first(iterator)` -/
 def It.first (it : It) (w : World) : Option Block × It × World := It.next { it with rest := it.all } w
 
+/-! ### chained strings (scan.c :395-660; same bookkeeping as Model/ReChain.lean, here with block bases) -/
+
+def uget (t : UTable) (s : Nat) : List UMatch :=
+  match t.find? (fun p => p.1 == s) with
+  | some p => p.2
+  | none => []
+
+def uset (t : UTable) (s : Nat) (l : List UMatch) : UTable :=
+  if t.any (fun p => p.1 == s) then t.map (fun p => if p.1 == s then (s, l) else p) else t ++ [(s, l)]
+
+/-- `_yr_scan_add_match_to_list` (sorted by base+off, one entry per position) -/
+def insU (m : UMatch) : List UMatch → List UMatch
+  | [] => [m]
+  | x :: xs =>
+    if x.base + x.off = m.base + m.off then x :: xs
+    else if m.base + m.off < x.base + x.off then m :: x :: xs
+    else x :: insU m xs
+
+/-- `ending_offset + gap_max >= match_offset && ending_offset + gap_min <= match_offset` — block-relative offsets -/
+def gapOk (ci : ChainInfo) (m : UMatch) (o : Nat) : Bool :=
+  decide (m.off + m.len + ci.gapMax ≥ o) && decide (m.off + m.len + ci.gapMin ≤ o)
+
+/-- the walk over the previous piece's list: drop entries out of reach, stop at the first one at a legal distance -/
+def pruneScan (ci : ChainInfo) (slack lowest o : Nat) : List UMatch → List UMatch × Bool
+  | [] => ([], false)
+  | m :: t =>
+    if m.off + m.len + ci.gapMax + slack < lowest then pruneScan ci slack lowest o t
+    else if gapOk ci m o then (m :: t, true)
+    else
+      let (t', f) := pruneScan ci slack lowest o t
+      (m :: t', f)
+
+/-- `_yr_scan_update_match_chain_length`, level by level: the matches of `q = prev(child)` at a legal distance from one of
+    the child offsets `offs` whose chain_length is not yet `n` get it, and pass it on (`n + 1`) to the piece before -/
+def propagate (P : Params) : Nat → UTable → Nat → List Nat → Nat → UTable
+  | 0, u, _, _, _ => u
+  | fuel + 1, u, child, offs, n =>
+    match P.chain child with
+    | none => u
+    | some ci =>
+      match ci.prev with
+      | none => u
+      | some q =>
+        let hit (m : UMatch) : Bool := offs.any (fun o => gapOk ci m o) && decide (m.clen ≠ n)
+        let lq := uget u q
+        let newOffs := (lq.filter hit).map (·.off)
+        if newOffs.isEmpty then u
+        else propagate P fuel (uset u q (lq.map fun m => if hit m then { m with clen := n } else m)) q newOffs (n + 1)
+
+/-- head of the chain a piece belongs to and the number of links up to it -/
+def chainHead (P : Params) : Nat → Nat → Nat × Nat
+  | 0, s => (s, 0)
+  | fuel + 1, s =>
+    match (P.chain s).bind (·.prev) with
+    | none => (s, 0)
+    | some q => let (h, n) := chainHead P fuel q; (h, n + 1)
+
+def maxChain : Nat := 8
+
+/-- `_yr_scan_verify_chained_string_match` for a verified occurrence `k` of the piece `k.str` in block `b`
+    (limits on the list lengths are not modelled: generated inputs stay below them) -/
+def chainStep (P : Params) (b : Block) (k : Cand) (ci : ChainInfo) (c : Core) : Core :=
+  match ci.prev with
+  | none =>
+    { c with unconfirmed := uset c.unconfirmed k.str (insU ⟨b.base, k.off, k.len, 0⟩ (uget c.unconfirmed k.str)) }
+  | some q =>
+    let lowest := match uget c.unconfirmed k.str with | [] => k.off | m :: _ => m.off
+    let (lq, found) := pruneScan ci P.pruneSlack lowest k.off (uget c.unconfirmed q)
+    let u1 := uset c.unconfirmed q lq
+    if !found then { c with unconfirmed := u1 }
+    else if ci.isTail then
+      let u2 := propagate P maxChain u1 k.str [k.off] 1
+      let (h, full) := chainHead P maxChain k.str
+      let heads := uget u2 h
+      let done := heads.filter (fun m => m.clen == full)
+      let u3 := uset u2 h (heads.filter (fun m => m.clen != full))
+      let found' := done.foldl (fun t m => tset t h (insMatch ⟨m.base, m.off, k.off - m.off + k.len⟩ (tget t h))) c.found
+      { c with unconfirmed := u3, found := found',
+               reqEval := if done.isEmpty then c.reqEval else setIns (P.strRule h) c.reqEval }
+    else
+      { c with unconfirmed := uset u1 k.str (insU ⟨b.base, k.off, k.len, 0⟩ (uget u1 k.str)) }
+
 /-! ### block phase -/
 
 /-- all candidates of one block through `yr_scan_verify_match` / `_yr_scan_match_callback` -/
@@ -252,6 +355,9 @@ def addCands (P : Params) (cb : Nat → CbRet) (fast : Bool) (b : Block) : List 
     if k.str ∈ c.strDisabled then addCands P cb fast b ks c w
     else if fast && P.singleMatch k.str && !(tget c.found k.str).isEmpty then addCands P cb fast b ks c w
     else
+    match P.chain k.str with
+    | some ci => addCands P cb fast b ks (chainStep P b k ci c) w
+    | none =>
       let c := { c with reqEval := setIns (P.strRule k.str) c.reqEval }
       if (tget c.found k.str).length = P.maxMatches then
         let (r, w) := call cb w
